@@ -23,7 +23,9 @@ RULE = ("states = distinct trivia variants / lexeme strings; transitions = real 
         "tokenisations; every variant's AST must equal the base's and every lexically valid string's real token "
         "stream must equal the reference stream (both readings agreeing)")  # fmt: skip
 
-TRIVIA = ["// c\r x\n", "// c\x0b x\n", "// c\x0c x\n", "// c\x1c x\n", "// c\x85 x\n", "// c\u2028 x\n", "// c\u2029, \"b\" weighted 1\n", "/* c\r x */",
+LONG_TRIVIA = ["// " + "x" * 1030 + "\n", "// " + " " * 5000 + "salt: 'old'\n", "/* " + "y" * 70000 + " */", " " * 3000, "\n" * 600, "// " + "z" * 70000 + "\n",
+               "/* " + "line\n" * 3000 + "*/", "\t" * 2000]
+TRIVIA = ["/* a *\ufeff/ b */", "/* \ufeff */", "// \ufeff x\n", "/* *\u200b/ x */", "/* *\u00ad/ x */", "// c\r x\n", "// c\x0b x\n", "// c\x0c x\n", "// c\x1c x\n", "// c\x85 x\n", "// c\u2028 x\n", "// c\u2029, \"b\" weighted 1\n", "/* c\r x */",
           " ", "\t", "\n", "\r\n", "  \n  ", "\f", "\v", "\r", "// c", "/* */ //", "// c\n", "//\n", "// ' \"\n", "// /* \n", "// */ x\n", "/* c */", "/**/", "/***/",
           "/* * / */", "/* ' */", '/* " */', "/* // */", "/* if return */", "/* a */ /* b */", "/* a */\n/* b */", "/* m\nl */",
           "/* é */", "// é\n", "/*\n*/", "/* x **/", "/* a */ // b\n", "/* } */", "/* \"s\" weighted 1, */"]  # fmt: skip
@@ -185,6 +187,8 @@ def units(tier):
     out = [("orig", n) for n in sorted(B)]
     for nme in names:
         out += [("single", nme, TRIVIA[i : i + 6]) for i in range(0, len(TRIVIA), 6)]
+    for nme in ("salt", "splitter_test", "readme_cond") if tier == "quick" else names:
+        out += [("single", nme, [it]) for it in LONG_TRIVIA]
     if tier == "thorough":
         for nme in names:
             out += [("pair", nme, it) for it in TRIVIA]
